@@ -313,11 +313,12 @@ def display_length(ctx, eng, disp):
         name = (t['func'].get('fn') or {}).get('path', '')
         if name.endswith('Vec::<T, A>::push') and 'Vec<std::string::String>' in t['args'][0]['place']['ty']:
             pushes.append(bi)
-        if name.endswith('Vec::<T>::new') and t['dest']['ty'] == 'std::vec::Vec<std::string::String>':
+        if (name.endswith('Vec::<T>::new') or name.endswith('Vec::<T>::with_capacity') or name.endswith(' as std::default::Default>::default')
+                or name == 'std::default::Default::default') and t['dest']['ty'] == 'std::vec::Vec<std::string::String>':
             news.append(bi)
     loops, back, idom, preds = body.loops()
     ok_new = len(news) == 1 and not any(news[0] in blks for blks in loops.values())
-    out.append(('result-created-empty-once', ok_new, '%d Vec::new() of the result type outside loops' % len(news), body.span))
+    out.append(('result-created-empty-once', ok_new, '%d creation(s) of an empty vector of the result type (new / with_capacity / default), outside loops' % len(news), body.span))
     ok_push = False
     detail = '%d push sites' % len(pushes)
     if len(pushes) == 1:
